@@ -91,6 +91,9 @@ func main() {
 			"mp.GetMapValue (next/rand/last/int indices on empty and non-empty sources), ${property:}/${env:} placeholders through config.DecodeAndValidate, " +
 			"randInt and randString (negative, zero, non-numeric lengths) through templater.ParseFunc/ExecTemplateFunc and through a `variables` source of a scenario file, " +
 			"empty (null) items in the plugin lists of a scenario file, scenario weights (negative, zero, missing, with common divisors) through the scenario providers with one full pass acquired, cli.Run in a child process for configs without a well-formed pools list; " +
+			"the same http formats read again and again (passes=0 with a limit: files without entries, last entry cut after its size line), bodies around and above the 1 MiB chunk of readSized, " +
+			"the generic JSON provider (plugin type json) over MultiPassReader (sources without ammo, truncated last ammo, passes 0..3), a metamorphic prefix run of every format (good alone vs good++junk), " +
+			"placeholders into typed fields; thorough adds exhaustive enumerations (every file of <= 5 tokens per http format, every name(arg,arg) / header string of <= 6 tokens, every request list of <= 3 items, index x source x length x calls, weight lists of <= 3, JSON sources of <= 4 tokens); " +
 			"a case is non-trivial when it reaches the modelled decoder with a non-empty input",
 	})
 }
